@@ -123,8 +123,9 @@ def fault_name(f):
 
 def case_name(case):
     n = case.get("n") or []
-    return "%s %s%s" % (shape_sig(case["shape"]), ",".join(fault_name(f) for f in case["faults"]) or "clean",
-                        (" n=" + ",".join(map(str, n))) if any(n) else "")
+    return "%s%s %s%s" % (shape_sig(case["shape"]), ("/" + case["mode"]) if case.get("mode") else "",
+                          ",".join(fault_name(f) for f in case["faults"]) or "clean",
+                          (" n=" + ",".join(map(str, n))) if any(n) else "")
 
 
 # ------------------------------------------------------------------------------------------------
@@ -137,6 +138,8 @@ class Verdict:
         self.classes = []      # labels for the evidence counters
         self.positions = []    # first | mid | last: row content of every write fault that fired (validity guard)
         self.legit_repeats = 0
+        self.tx_write_faults = 0   # transactional modes: injected write failures that happened (by the error text / hooks)
+        self.tx_stmt_faults = 0
 
     def v(self, key, what):
         if not any(k == key for k, _ in self.violations):
@@ -155,6 +158,7 @@ def judge(case, attempts):
     ids in rowid order)}."""
     vd = Verdict()
     shape = case["shape"]
+    tx = (case.get("mode") or "none") != "none"
     cn = canon(shape)
     idx = {x: i for i, x in enumerate(cn)}
     ok_count, failed_bk, order, ok_by_file = {}, {}, [], {}
@@ -232,8 +236,13 @@ def judge(case, attempts):
         if at["kind"] == "fault":
             if fault.get("w"):
                 only_stmt_faults = False
-            w_fired = fired_at is not None
-            if fault.get("w") and w_fired:
+            # transactional modes: the event of the failed write is rolled back with the transaction; that the injected
+            # failure happened is known from the engine's error text in the output / an unfinished write in the hooks
+            w_fired = fired_at is not None or bool(fault.get("w") and tx and at.get("w_marker"))
+            if tx:
+                vd.tx_write_faults += 1 if (fault.get("w") and w_fired) else 0
+                vd.tx_stmt_faults += 1 if x_fired else 0
+            if fault.get("w") and fired_at is not None:
                 ev = evs[fired_at]
                 # position class from the observed row content only: applied==0 / 0<applied<total / applied==total
                 vd.positions.append("first" if not ev[2] else "last" if ev[2] == ev[6] else "mid")
